@@ -22,10 +22,12 @@ TEXT = ("After every operation: read timer pending <=> reading enabled && not su
         "receiver's read interval and the sender's write interval; a timeout event is reported as TIMEOUT|READING (WRITING) exactly once and disables that direction; "
         "a read/write event that coincides with a timeout counts as a transfer.")
 NOTE = ("Trusted: cbmc, env/evbuf_sink.h, env/bev_env.h (event_add(tv!=NULL) restarts the timer, event_add(NULL) keeps it, event_del cancels), env/locks.h. "
-        "Genuine defects found: fixes/C20-pair-timeouts.{diff,md}, fixes/C20-filter-timeouts.{diff,md}; known finding KF-C20-sock-enable-empty (fixes/C20-known-findings.json).")
+        "Genuine defect found and fixed: fixes/C20-pair-timeouts.{diff,md}; known findings KF-C20-sock-enable-empty and KF-C20-filter-timeouts (fixes/C20-known-findings.json; "
+        "fixes/C20-filter-timeouts.{diff,md} is a patch that makes the strict statement hold for filters but contradicts libevent's own regress expectations, not applied).")
 ASSUMPTIONS = ["evbuffers behave as env/evbuf_sink.h (C12-C16)", "the event core behaves as env/bev_env.h documents (C01/C02)",
                "no rate limit configured; bufferevent not connecting",
-               "socket obligations: EV_WRITE is not enabled/un-suspended while the output buffer is empty (KF-C20-sock-enable-empty covers that state)"]
+               "socket obligations: EV_WRITE is not enabled/un-suspended while the output buffer is empty (KF-C20-sock-enable-empty covers that state)",
+               "filter obligations: the write clause is only 'never while disabled/suspended/unset', and flushes are applied to enabled, unsuspended directions (KF-C20-filter-timeouts covers the rest)"]
 DESIGN_REF = "DESIGN.md §5 C20"
 
 SOCK_OPS = ["enable_r", "enable_w", "disable_r", "disable_w", "set_timeouts", "suspend", "unsuspend", "write", "read_event", "write_event",
@@ -58,13 +60,22 @@ def obligations(tier):
     FILT_OPS = ["enable_r", "disable_r", "set_timeouts", "suspend_r", "unsuspend_r", "data_arrives", "read_timeout", "enable_w", "write", "flush_r",
                 "disable_w", "suspend_w", "unsuspend_w", "write_timeout", "underlying_drained", "flush_w"]
     quick_fout = {"enable_w", "write", "write_timeout", "underlying_drained", "flush_w", "unsuspend_w", "set_timeouts"}
+    FDESC = "read timeout invariant exact, write timeout never while disabled/suspended/unset, underlying read suspension mirrors the filter"
     for i, nm in enumerate(FILT_OPS):
-        if nm not in ("write_timeout", "underlying_drained"):     # (need pending output: only the filter_out_ variants are non-vacuous)
-            obs.append(dict(name="filter_" + nm, harness="C20_filter.c", entry="harness_filter_step", defines=["C20_OP=%d" % i, "C20_CHECK_WRITE"], unwind=8, unwindset=UW,
-                            timeout=600, mem_gb=4, desc="filter over a socket bufferevent, operation %s: read and write timeout invariant + underlying read suspension mirrors the filter" % nm))
+        if nm != "underlying_drained":      # (needs output held back: only the filter_out_ variant is non-vacuous)
+            obs.append(dict(name="filter_" + nm, harness="C20_filter.c", entry="harness_filter_step", defines=["C20_OP=%d" % i], unwind=8, unwindset=UW,
+                            timeout=600, mem_gb=4, desc="filter over a socket bufferevent, operation %s: %s" % (nm, FDESC)))
         if tier == "thorough" or nm in quick_fout:
-            obs.append(dict(name="filter_out_" + nm, harness="C20_filter.c", entry="harness_filter_step", defines=["C20_OP=%d" % i, "C20_CHECK_WRITE", "C20_WITH_OUTPUT"],
-                            unwind=8, unwindset=UW, timeout=600, mem_gb=4, desc="filter, operation %s, output held back in the filter (underlying at its high write mark)" % nm))
+            obs.append(dict(name="filter_out_" + nm, harness="C20_filter.c", entry="harness_filter_step", defines=["C20_OP=%d" % i, "C20_WITH_OUTPUT"],
+                            unwind=8, unwindset=UW, timeout=600, mem_gb=4, desc="filter, operation %s, output held back in the filter (underlying at its high write mark): %s" % (nm, FDESC)))
+    KF = "KF-C20-filter-timeouts"
+    STRICT = ["C20: filter write timeout pending iff"]
+    for nm, defs, exp in (("enable_w_empty", ["C20_OP=7", "C20_CHECK_WRITE"], STRICT),
+                          ("write_held_back", ["C20_OP=8", "C20_CHECK_WRITE", "C20_WITH_OUTPUT"], STRICT),
+                          ("flush_r_disabled", ["C20_OP=9", "KF_ONLY_filter_flush"], ["C20: filter read timeout pending iff"]),
+                          ("flush_w_disabled", ["C20_OP=15", "KF_ONLY_filter_flush"], ["C20: filter write timeout pending although"])):
+        obs.append(dict(name="filter_kf_" + nm, harness="C20_filter.c", entry="harness_filter_step", defines=defs, unwind=8, unwindset=UW, timeout=600, mem_gb=4,
+                        known_finding=KF, expect_fail=exp, desc="recorded finding %s isolated (%s): must still fail" % (KF, nm)))
     if tier == "thorough":
         for i, nm in ((4, "set_timeouts"), (8, "read_event"), (9, "write_event"), (10, "read_timeout")):
             obs.append(dict(name="sock_%s_ndebug" % nm, harness="C20_sock.c", entry="harness_sock_step", defines=["C20_OP=%d" % i], unwind=8, unwindset=UW,
